@@ -612,7 +612,10 @@ async def stdio_client(
         for exc in eg.exceptions:
             if not isinstance(exc, anyio.get_cancelled_exc_class()):
                 error_msg = str(exc)
-                if "cancel scope" in error_msg.lower():
+                # anyio reports a cancel scope left in another task as a RuntimeError; an
+                # exception of any other class (the caller's, a server's error reply) that
+                # merely mentions those words is not shutdown noise
+                if isinstance(exc, RuntimeError) and "cancel scope" in error_msg.lower():
                     logger.debug(
                         f"stdio_client cancel scope issue (expected during shutdown): {exc}"
                     )
@@ -626,7 +629,10 @@ async def stdio_client(
         # Handle regular exceptions
         if not isinstance(e, anyio.get_cancelled_exc_class()):
             error_msg = str(e)
-            if "cancel scope" in error_msg.lower():
+            # anyio reports a cancel scope left in another task as a RuntimeError; an
+            # exception of any other class (the caller's, a server's error reply) that
+            # merely mentions those words is not shutdown noise
+            if isinstance(e, RuntimeError) and "cancel scope" in error_msg.lower():
                 logger.debug(
                     f"stdio_client cancel scope issue (expected during shutdown): {e}"
                 )
@@ -702,7 +708,10 @@ async def stdio_client_with_initialize(
         for exc in eg.exceptions:
             if not isinstance(exc, anyio.get_cancelled_exc_class()):
                 error_msg = str(exc)
-                if "cancel scope" in error_msg.lower():
+                # anyio reports a cancel scope left in another task as a RuntimeError; an
+                # exception of any other class (the caller's, a server's error reply) that
+                # merely mentions those words is not shutdown noise
+                if isinstance(exc, RuntimeError) and "cancel scope" in error_msg.lower():
                     logger.debug(
                         f"stdio_client_with_initialize cancel scope issue (expected): {exc}"
                     )
@@ -718,7 +727,10 @@ async def stdio_client_with_initialize(
         # Handle regular exceptions
         if not isinstance(e, anyio.get_cancelled_exc_class()):
             error_msg = str(e)
-            if "cancel scope" in error_msg.lower():
+            # anyio reports a cancel scope left in another task as a RuntimeError; an
+            # exception of any other class (the caller's, a server's error reply) that
+            # merely mentions those words is not shutdown noise
+            if isinstance(e, RuntimeError) and "cancel scope" in error_msg.lower():
                 logger.debug(
                     f"stdio_client_with_initialize cancel scope issue (expected): {e}"
                 )
